@@ -1507,6 +1507,9 @@ func genTBHistory(r *rand.Rand, st *tbStats, hid int, maxHands int) (out string)
 		if r.Intn(2) == 0 {
 			h.betweenHands(true)
 		}
+		if !h.dead && r.Intn(6) == 0 {
+			h.openAttemptDuringHand() // the gate is made to fire while this hand runs (now and then on a paused table)
+		}
 		if !h.dead && r.Intn(8) == 0 {
 			h.stopMidHandThenLeaves()
 		}
